@@ -305,19 +305,6 @@ func (s *Service) AddMachine(ctx context.Context, specName, id, nodeName string,
 		},
 	}
 
-	c.Lock()
-	_, have := c.Machines[id]
-	if !have {
-		c.Machines[id] = &m
-	}
-	vhook("add-mem", id)
-	c.Unlock()
-
-	if have {
-		return Exists
-	}
-	vhook("add-before-write", id)
-
 	ms := MachineState{
 		Mid:        m.Id,
 		SpecSource: m.SpecSource,
@@ -325,7 +312,26 @@ func (s *Service) AddMachine(ctx context.Context, specName, id, nodeName string,
 		Bs:         m.State.Bs,
 	}
 
-	return s.store.WriteState(ctx, s.crewName, []*MachineState{&ms})
+	// Hold the crew lock across the write, and add the machine to
+	// the in-memory crew only when the write succeeded (as Process
+	// does): memory never gets ahead of the store, and this write
+	// cannot overwrite a newer one made by a concurrent Process.
+	c.Lock()
+	defer c.Unlock()
+
+	if _, have := c.Machines[id]; have {
+		return Exists
+	}
+
+	vhook("add-before-write", id)
+	if err := s.store.WriteState(ctx, s.crewName, []*MachineState{&ms}); err != nil {
+		return err
+	}
+
+	c.Machines[id] = &m
+	vhook("add-mem", id)
+
+	return nil
 }
 
 func (s *Service) RemMachine(ctx context.Context, mid string) error {
@@ -336,13 +342,20 @@ func (s *Service) RemMachine(ctx context.Context, mid string) error {
 
 	// ToDo: Remove timers?
 
+	// As in AddMachine: write under the crew lock, and change the
+	// in-memory crew only when the write succeeded.
 	s.crew.Lock()
+	defer s.crew.Unlock()
+
+	vhook("rem-before-write", mid)
+	if err := s.store.WriteState(ctx, s.crewName, []*MachineState{&ms}); err != nil {
+		return err
+	}
+
 	delete(s.crew.Machines, mid)
 	vhook("rem-mem", mid)
-	s.crew.Unlock()
-	vhook("rem-before-write", mid)
 
-	return s.store.WriteState(ctx, s.crewName, []*MachineState{&ms})
+	return nil
 }
 
 func (s *Service) Route(ctx context.Context, msg interface{}) ([]string, bool, error) {
